@@ -44,3 +44,24 @@ package keeper
 //@   ensures #c11-custody: result == nil ==> bal(am, pd) == old(bal(am, pd)) + ite(had, 0, a0.ExpectedUserToken.Amount)
 //@   ensures #c11-outbid-refunded: result == nil && had && a0.Bidder != bidder ==> bal(a0.Bidder, pd) == old(bal(a0.Bidder, pd)) + a0.ExpectedUserToken.Amount
 //@   ensures #c11-bidder-pays: result == nil && (!had || a0.Bidder != bidder) ==> bal(bidder, pd) == old(bal(bidder, pd)) - a0.ExpectedUserToken.Amount
+
+// Per-auction step of the first-generation dutch sweep (C10): when the step restarts a round, the stored round starts at
+// buffer x oracle price, its end price is cusp x that same start price, and the posted price is reset to the start price;
+// when it only lowers the price, start and end price of the round stay as they were.
+//@ func (k Keeper) RestartDutchAuctions$1
+//@   property C10
+//@   let A = dutchAuction
+//@   let twa = K("market").GetTwa(ctx, dutchAuction.AssetOutId).0
+//@   let esmOn = K("esm").GetESMStatus(ctx, K("liquidation").GetLockedVault(ctx, appID, dutchAuction.LockedVaultId).0.AppId).1 && K("esm").GetESMStatus(ctx, K("liquidation").GetLockedVault(ctx, appID, dutchAuction.LockedVaultId).0.AppId).0.Status
+//@   requires #twa-range: twa.Twa < pow2(63)
+//@   requires #fee-book: forall a, b :: ite(K("collector").GetNetFeeCollectedData(ctx, a, b).1, K("collector").GetNetFeeCollectedData(ctx, a, b).0.NetFeesCollected, 0) >= 0
+//@   requires #ranges: A.OutflowTokenInitialPrice != A.OutflowTokenEndPrice && auctionParams.AuctionDurationSeconds < pow2(40)
+//@   letpost a1 = k.GetDutchAuction(ctx, A.AppId, A.AuctionMappingId, A.AuctionId)
+//@   ensures #c10-restart-prices: result == nil && blocktime() > A.EndTime && !esmOn && a1.1 == nil ==> \
+//@       a1.0.OutflowTokenInitialPrice == decMul(auctionParams.Buffer, dec(twa.Twa)) && \
+//@       a1.0.OutflowTokenEndPrice == decMul(a1.0.OutflowTokenInitialPrice, auctionParams.Cusp) && \
+//@       a1.0.OutflowTokenCurrentPrice == a1.0.OutflowTokenInitialPrice && a1.0.StartTime == blocktime()
+//@   ensures #c10-update-keeps-round: result == nil && blocktime() <= A.EndTime && a1.1 == nil ==> \
+//@       a1.0.OutflowTokenInitialPrice == A.OutflowTokenInitialPrice && a1.0.OutflowTokenEndPrice == A.OutflowTokenEndPrice && \
+//@       a1.0.StartTime == A.StartTime && a1.0.EndTime == A.EndTime && \
+//@       a1.0.OutflowTokenCurrentAmount == A.OutflowTokenCurrentAmount && a1.0.InflowTokenCurrentAmount == A.InflowTokenCurrentAmount && a1.0.InflowTokenTargetAmount == A.InflowTokenTargetAmount
